@@ -61,6 +61,7 @@ Print Assumptions C02sem_all_chain.
 
 Theorem C02sem_all_chain_step : forall rows cols snaps prev r,
   snap_all rows cols prev -> Forall (snap_all rows cols) snaps ->
+  pend r = [] ->   (* the receiving parser holds no bytes of an unfinished utf-8 character back *)
   ground (vt r) -> shows prev (scr r) (live (cur prev)) -> same_modes prev (scr r) ->
   exists r', diff_chain r prev snaps = Ok r' /\ log r' = log r /\ ground (vt r') /\
              shows (last_snap prev snaps) (scr r') (live (cur (last_snap prev snaps))) /\
